@@ -48,6 +48,12 @@ func c46HeaderValue(rt *rapid.T, i int) (string, string) {
 	switch rapid.IntRange(0, 6).Draw(rt, fmt.Sprintf("hvk%d", i)) {
 	case 0:
 		return "", "hdr-value=empty"
+	case 2:
+		// space-like characters inside the value; at its end only those that are not Unicode
+		// white space (the line format cannot keep trailing white space of any kind)
+		mid := rapid.SampledFrom(c46SpaceLike).Draw(rt, fmt.Sprintf("hvw%d", i))
+		end := rapid.SampledFrom([]string{"x", "\u200b", "\ufeff", "\x85", "\xa0", "y"}).Draw(rt, fmt.Sprintf("hve%d", i))
+		return "v" + mid + "w" + end, "hdr-value=space-like"
 	case 1:
 		return rapid.SampledFrom([]string{": x", ":", "a: b: c", " leading space", "::", "x :y", "-----BEGIN X-----", "=AAAA"}).Draw(rt, fmt.Sprintf("hvs%d", i)), "hdr-value=colons/spaces"
 	default:
@@ -374,11 +380,20 @@ var c46Hashes = []crypto.Hash{crypto.SHA1, crypto.SHA224, crypto.SHA256, crypto.
 // "-----BEGIN", "From ", trailing blanks/tabs, empty lines, CRLF / LF / lone
 // CR, missing final newline, non-UTF-8 bytes).
 func c46Plaintext(rt *rapid.T) ([]byte, []string) {
+	if rapid.IntRange(0, 24).Draw(rt, "onlyws") == 0 {
+		s := rapid.SampledFrom(c46SpaceLike).Draw(rt, "wstext")
+		s += rapid.SampledFrom([]string{"", "\n", "\r\n", " "}).Draw(rt, "wstextend")
+		return []byte(s), []string{"text=space-like-only"}
+	}
 	n := rapid.IntRange(0, 10).Draw(rt, "lines")
 	var b []byte
 	cls := map[string]bool{}
 	for i := 0; i < n; i++ {
-		switch rapid.IntRange(0, 11).Draw(rt, "lk") {
+		switch rapid.IntRange(0, 13).Draw(rt, "lk") {
+		case 12, 13:
+			// nothing but a space-like character on the line (the trailing class may add more)
+			b = append(b, rapid.SampledFrom(c46SpaceLike).Draw(rt, "wsonly")...)
+			cls["line=space-like-only"] = true
 		case 0:
 			cls["line=empty"] = true
 		case 1:
@@ -409,7 +424,20 @@ func c46Plaintext(rt *rapid.T) ([]byte, []string) {
 			b = append(b, rapid.StringMatching(`[a-zA-Z0-9 ,.:=\-]{1,50}`).Draw(rt, "words")...)
 			cls["line=words"] = true
 		}
-		switch rapid.IntRange(0, 6).Draw(rt, "trail") {
+		switch rapid.IntRange(0, 9).Draw(rt, "trail") {
+		case 7:
+			// characters that look like white space but are not SP/TAB/CR: they belong to the
+			// signed text (RFC 4880 7.1 names only spaces and tabs)
+			b = append(b, rapid.SampledFrom(c46SpaceLike).Draw(rt, "wslike")...)
+			cls["trailing=space-like"] = true
+		case 8:
+			b = append(b, rapid.SampledFrom(c46SpaceLike).Draw(rt, "wslike")...)
+			b = append(b, rapid.SampledFrom([]string{" ", "\t ", "\r", " \r"}).Draw(rt, "wsafter")...)
+			cls["trailing=space-like+blanks"] = true
+		case 9:
+			b = append(b, ' ')
+			b = append(b, rapid.SampledFrom(c46SpaceLike).Draw(rt, "wslike")...)
+			cls["trailing=blank+space-like"] = true
 		case 0:
 			b = append(b, ' ')
 			cls["trailing=blanks"] = true
@@ -452,6 +480,11 @@ func sortStrings(s []string) {
 		}
 	}
 }
+
+// c46SpaceLike: form feed, vertical tab, NEL, NBSP, line/paragraph separators,
+// ideographic space, ogham space, zero-width space, BOM, and the lone bytes 0x85
+// and 0xA0 (Latin-1 NEL/NBSP, invalid as UTF-8).
+var c46SpaceLike = []string{"\f", "\v", "\u0085", "\u00a0", "\u2028", "\u2029", "\u3000", "\u1680", "\u200b", "\ufeff", "\x85", "\xa0"}
 
 var c46HashHeader = map[crypto.Hash]string{crypto.SHA1: "SHA1", crypto.SHA224: "SHA224", crypto.SHA256: "SHA256", crypto.SHA384: "SHA384", crypto.SHA512: "SHA512", crypto.RIPEMD160: "RIPEMD160"}
 
